@@ -733,6 +733,26 @@ class C16(object):
         ref = -sum(m * math.log2(m) for m in [sum(ps[tuple(o)] for o in c) for c in comp] if m > 0)
         if abs(K - ref) > 1e-9:
             r.oracle_fail = 'gk_common_information %r, entropy of the connected components %r' % (K, ref)
+            return
+        # the same distribution held in a log base (sparse or dense): the common variable is the same function of the
+        # outcomes, and its entropy comes in units of that base (C07: entropies scale by 1/log2 b)
+        for b in ('e', 2, 10, 0.5):
+            for dense in (False, True):
+                x = d.copy(base=b)
+                if dense:
+                    x.make_dense()
+                try:
+                    Kb = float(gk_common_information(x, [self.nm(case, g) for g in groups]))
+                except Exception as e:  # noqa
+                    r.oracle_fail = ('gk_common_information raised %s: %s on the same distribution held in base %r (%s)'
+                                     % (type(e).__name__, str(e)[:120], b, 'dense' if dense else 'sparse'))
+                    return
+                unit = 1.0 if b == 2 else (math.log2(math.e) if b == 'e' else math.log2(b))
+                if abs(Kb * unit - ref) > 1e-9 * max(1.0, abs(unit)):
+                    r.oracle_fail = ('gk_common_information of the same distribution held in base %r (%s) is %r = %r bits, '
+                                     'the entropy of the connected components is %r bits' % (b, 'dense' if dense else 'sparse', Kb, Kb * unit, ref))
+                    return
+        r.features.append('K-in-log-bases')
 
     @staticmethod
     def components(rows, groups):
